@@ -19,7 +19,7 @@ from pathlib import Path
 from . import locate
 from .ty import *      # noqa
 
-STR_POOL = ["", "a.py", "b/a.py", "a.py:3", "*a.py:3", "*.py", "b/**", "a.py:1", "x", ":", "3", "r1", "r2", "open", "*a.py:1",
+STR_POOL = ["b", "shell", "timeout", "", "a.py", "b/a.py", "a.py:3", "*a.py:3", "*.py", "b/**", "a.py:1", "x", ":", "3", "r1", "r2", "open", "*a.py:1",
             "a.py:2", "/pyvc-none/t/a.py:3", "/pyvc-none/t/b/a.py:1", "b/a.py:1"]
 PATH_POOL = [Path("/pyvc-none/t/a.py"), Path("/pyvc-none/t/b/a.py"), Path("/pyvc-none/t"), Path("a.py"), Path("b/a.py"), Path("/pyvc-none/t/c.py")]
 INT_POOL = [1, 2, 3, 1, 2, 3, 0, 1, 2, 4, -1]
@@ -112,6 +112,11 @@ class Gen:
             is_model = issubclass(cls, pydantic.BaseModel)
         except Exception:
             is_model = False
+        if issubclass(cls, tuple):
+            vals = {f: self.value(fty, f, depth + 1) for f, fty in E.U.all_fields(ty.cls).items()}
+            obj = cls(**vals)
+            insts.append(obj)
+            return obj
         if is_model:
             vals = {}
             for f, fty in E.U.all_fields(ty.cls).items():
@@ -150,9 +155,16 @@ class _Token:
         return hash((self.name, self.i))
 
 
+_NODES = []
+
+
 def _node(r):
     import libcst as cst
-    return r.choice([cst.Name("x"), cst.Tuple(elements=[]), cst.Call(func=cst.Name("f"))])
+    if not _NODES:
+        _NODES.extend([cst.Name("x"), cst.Tuple(elements=[]), cst.Call(func=cst.Name("f"))])
+        for src in ("f(a, b=1)", "f(a, shell=True, **opts)", "f(*rest, timeout=3, b=2)", "g(x, y, z)", "f(b=1, **kw)", "f(**kw)"):
+            _NODES.append(cst.parse_expression(src))
+    return r.choice(_NODES)
 
 
 _SUB = {}
